@@ -113,11 +113,6 @@ class probe_solver : public solver{
         unsigned file_number() const {return file_number_;}
         double time() const {return time_integrator_ptr_->get_simulation_time();}
 };
-class probe_integrator : public time_integration_scheme{
-    public:
-        static double dt(const time_integration_scheme& t){ return static_cast<const probe_integrator&>(t).dt_; }
-};
-
 static std::string run(const std::string& path){
     simulation_initializer init(path, false);
     const global_simulation_parameters g = init.get_simulation_parameters();
@@ -128,7 +123,6 @@ static std::string run(const std::string& path){
         o += " ; C" + dump_cell(*cells[0]->get_cell_type());
         for(const auto& f : cells[0]->get_cell_type()->face_types_) o += " ; F" + dump_face(f);
     }
-    // smallest edge of the initial mesh (l_min is a lower bound on the edges created by the initial triangulation)
     probe_solver s(g, cells, 1, true, false);
     o += " ; N" + dump_num(s.get_sim_parameters());
     s.run();
